@@ -21,6 +21,41 @@ NOTES = ("All checks are property-based tests / fuzzers over generated inputs (D
 NOT_YET = {}
 
 TEXT = {
+    "C01": {
+        "engine": "engine-S",
+        "technique": "property-based testing: round-trip / fixed-point oracle over hook-synthesised files of every block type x version (rapidcheck tapes + enumerated pattern tapes) and the sample files",
+        "level_text": "Every registered type x 14 version configurations is instantiated from pattern tapes (exhaustive over type x version) and tens of thousands of random tapes, plus multi-block files and the 26 samples; each accepted file must reach a byte-identical raw fixed point after one write and a default-save fixed point within two rounds. Sampled over field populations; no proof of absence.",
+        "level_note": "Synthesised files obey the listed format preconditions; first-write normalisation is allowed, only non-idempotent normalisation or read/write asymmetry fails. A crash while reloading the library's own output is reported as a violation.",
+        "design_ref": "DESIGN.md section 3, C01",
+    },
+    "C02": {
+        "engine": "engine-S",
+        "technique": "property-based testing: same live model saved three times with a query battery before/after each save; byte equality (raw) / string-order-canonical equality (default) and battery equality as oracles",
+        "level_text": "For samples and synthesised files of every type x version, in both save modes, three consecutive saves of one in-memory model must give the same content and every read-only query the same answers; generated exploration, not a proof.",
+        "level_note": "The query battery is the public read-only API (harness/common/battery.hpp); across the first default save only the reachable, order-insensitive part is compared (C04 allows permutation/pruning); partition/segment queries only on sample files.",
+        "design_ref": "DESIGN.md section 3, C02",
+    },
+    "C03": {
+        "engine": "mininif",
+        "technique": "property-based testing: metamorphic relabelling of block types to unknown names by an independent writer; byte-identity oracle on opaque payloads, positions, sizes and string indices read back by an independent parser",
+        "level_text": "Every sample x every singleton type and the full type set x {raw, default}, every registered type in size-table versions, and random subsets on synthesised files: opaque blocks must come back byte-identical at the same position and the string table may only grow. Exhaustive over the listed enumerations, sampled beyond.",
+        "level_note": "Unknown types are simulated by relabelling known ones (payload untouched); MiniNif is the only reader of the output.",
+        "design_ref": "DESIGN.md section 3, C03",
+    },
+    "C07": {
+        "engine": "mininif",
+        "technique": "property-based testing: independent header/table walker (MiniNif) over outputs of round trips and generated edit sequences; per-block size compared with independently re-serialised length",
+        "level_text": "Tens of thousands of saved files (all types x versions, samples, 0-4 generated edits, both save modes) are walked by a parser that trusts only the header tables; block count, type table, type indices, sizes, footer position, string uniqueness, max length and string-index ranges must all match the bytes.",
+        "level_note": "True block lengths come from re-serialising the reloaded blocks into private buffers; string-field offsets from hook H4.",
+        "design_ref": "DESIGN.md section 3, C07",
+    },
+    "C08": {
+        "engine": "engine-S",
+        "technique": "differential testing against a vendored reference build linked into the same process: read-trace differential of the hook-fed synthesiser plus cross-build read/re-encode of generated and sample files",
+        "level_text": "For every registered type x version (pattern tapes, exhaustive over type x version) and random tapes, the reference and the current build must issue the same sequence of typed reads and record the same payload, and files written by either must be re-encoded byte-identically by the other. Detects symmetric read/write changes (gate shifts, swapped fields, width changes) that every round-trip test misses.",
+        "level_note": "The reference is the vendored snapshot in /verif/reference (pinned commit + hooks + fix: commits, see PROVENANCE); it must be re-vendored by hand (bin/vendor_reference) when a wire defect is repaired on purpose.",
+        "design_ref": "DESIGN.md section 3, C08",
+    },
     "C05": {
         "engine": "engine-S",
         "technique": "property-based testing: hook-fed block synthesis (rapidcheck tapes + exhaustive type x version pattern tapes), subset oracle on observed vs enumerated reference pointers, metamorphic delete-and-save consequence check",
